@@ -35,6 +35,11 @@ func (s *Solutions) Close() error {
 		return ErrClosed
 	}
 	close(s.more)
+	if s.next != nil {
+		// Wait for the search to acknowledge so that it's over, and s.err is settled, by the time Close returns.
+		for range s.next {
+		}
+	}
 	s.closed = true
 	return nil
 }
